@@ -294,7 +294,11 @@ def run(ctx, idx):
             for x in (c if isinstance(c, (dict, list, tuple, set, frozenset)) else ()):
                 if isinstance(x, str):
                     words.add(x.lower())
-    via_int = any(isinstance(n, ast.Call) and isinstance(n.func, ast.Name) and n.func.id == "bool" and n.args and isinstance(n.args[0], ast.Call) and isinstance(n.args[0].func, ast.Name) and n.args[0].func.id == "int" for n in own_nodes(bp.node))
+    def _is_int_call(e):
+        e = K.expand(bp, e)
+        return isinstance(e, ast.Call) and isinstance(e.func, ast.Name) and e.func.id == "int"
+
+    via_int = any(isinstance(n, ast.Call) and isinstance(n.func, ast.Name) and n.func.id == "bool" and n.args and _is_int_call(n.args[0]) for n in own_nodes(bp.node))
     ok = {"true", "false"} <= words and via_int
     ctx.ob("C20.e", "%s::boolean-forms" % bp.key, K.rel(bp), bp.node.lineno, ok, "true/false/0/1 forms recognised" if ok else "BooleanParameter no longer recognises the true/false/0/1 forms")
     if ok:
